@@ -94,6 +94,8 @@ def run(ck, F):
                 c, val = conds[0]
                 # c must be the identity test &Q == &P0 (either order)
                 ident = c in (('op', '==', ('addr', Q), ('addr', ('param', 0))), ('op', '==', ('addr', ('param', 0)), ('addr', Q)))
+                if not ident and c in (('op', '!=', ('addr', Q), ('addr', ('param', 0))), ('op', '!=', ('addr', ('param', 0)), ('addr', Q))):
+                    ident, val = True, not val          # the same test written negatively (a guard clause)
                 if not ident:
                     cases['?'] = 'the case split is not the identity of the queried and the bound parameter: ' + contracts.render(c, s2, {})
                     continue
